@@ -10,6 +10,10 @@ case kinds
         (twice), parse the bytes (keyword, positional, classmethod, parse() on an empty object and on an object that parsed B before), re-pack
         (twice).  Every call must give what the same call gives on fresh objects: the stack property for A-before, B and A-after, equal
         results for the repeated calls; the model (which has no state) is asked the three stacks separately.
+  {"kind":"hist","stacks":[layers…],"ops":[attach p c|bytes, pack o, reparse o as k …]}   the SAME header objects moved / shared between containers
+        (set as payload of A, then of B, then A given something else; one object under two containers packed alternately; payload replaced and
+        re-attached; a header parsed off the wire re-used under a built header; swaps; random sequences).  Every pack must emit the frame of a
+        freshly built stack with the same arrangement (tracked symbolically in hist_sim); the model is asked each such stack on its own.
 
 The oracle is independent of the Lean model: it compares the built chain (after pack) with the re-parsed chain, the two
 serialisations, and recomputes every length / Internet-checksum field found in the emitted bytes with the RFC 1071
@@ -377,7 +381,8 @@ class C14(Check):
     level_note = ""
     rule = ("case = header stack built from the library's own classes (field values from {0, max, sign bit, random}, payload lengths 0..1500 odd/even, option/TLV lists) "
             "or a direct checksum() call in every call form the code base uses; or a call history on the same objects (pack, change fields in place, pack again, parse in four call forms, a second object "
-            "of the same classes built before/after); corpus: every payload length 0..33, block-size multiples +-1 of payload and of checksummed region, 65535-byte datagrams, option areas of every size up to "
+            "of the same classes built before/after), or a history that moves / shares header objects between containers and packs them; corpus: transport checksums solved to be exactly "
+            "0x0000 / 0xffff / 0x0001 / 0xfffe / ... for UDP, TCP (+options), ICMP, ICMPv6 over both IP versions, LLC control fields with a zero second octet,  every payload length 0..33, block-size multiples +-1 of payload and of checksummed region, 65535-byte datagrams, option areas of every size up to "
             "exactly full, zero at every position, every value of every selector octet (ICMP/ICMPv6 type, IP protocol, TCP option kind, NDP option type/length, DHCP option code, IGMP type) and every prefix of "
             "NDP/DHCP/RIP/VXLAN/IGMP bodies behind valid checksums; distinct = sha1 of the canonical case; non-trivial = stack of >= 2 protocol layers or a checksum input of >= 2 bytes")
 
